@@ -19,7 +19,7 @@ import (
 func init() {
 	Register(&Prop{
 		ID: "C07", NoShrink: true,
-		Rule: "srv: requests with Content-Length / chunked / fixed-length multipart (pre-parsed, not pre-parsed, with Content-Encoding) bodies of sizes around MaxRequestBodySize L (L-1, L, L+1, 2L, chunk splits) on a real connection; cli: Response.ReadLimitBody with fixed / chunked / identity bodies around L, on fresh Response objects and on objects whose body buffer was grown by an earlier larger response; " +
+		Rule: "srv: requests with Content-Length / chunked / fixed-length multipart (pre-parsed, not pre-parsed, with Content-Encoding) bodies of sizes around MaxRequestBodySize L (L-1, L, L+1, 2L, chunk splits) on a real connection; srvhr: the limit raised or lowered for one request through HeaderReceived, followed by a request without override on the same connection; cli: Response.ReadLimitBody with fixed / chunked / identity bodies around L, on fresh Response objects and on objects whose body buffer was grown by an earlier larger response; " +
 			"gz: Body*WithLimit on gzip bodies whose inflated size is around L (incl. bombs); mp: MultipartFormWithLimit; head: request heads around ReadBufferSize; " +
 			"non-trivial = body size within [L-2, 2L]; distinct = distinct input",
 		Parallel: true,
@@ -102,6 +102,39 @@ func init() {
 						m := strings.Fields(r[0])
 						if len(m) > 0 && m[0] != strings.Fields(impl)[0] {
 							return Verdict{VCorr, "limit-srv", desc + "; model " + r[0]}
+						}
+						return Ok()
+					}}
+			case "srvhr":
+				// Server.MaxRequestBodySize = L; HeaderReceived raises (or lowers) the limit to R for the FIRST request only;
+				// a second request without override follows on the same connection: it is under the server's limit again
+				L, R, s1, s2 := num(0), num(1), num(2), num(3)
+				var stream bytes.Buffer
+				fmt.Fprintf(&stream, "POST /first HTTP/1.1\r\nHost: h\r\nX-Req-Conf: mb=%d\r\nContent-Length: %d\r\n\r\n%s", R, s1, bytes.Repeat([]byte("a"), s1))
+				fmt.Fprintf(&stream, "POST /second HTTP/1.1\r\nHost: h\r\nContent-Length: %d\r\n\r\n%s", s2, bytes.Repeat([]byte("b"), s2))
+				stream.WriteString("GET /sentinel HTTP/1.1\r\nHost: h\r\n\r\n")
+				res := runConn(connCfg{MaxBody: L, HeaderRecv: true}, [][]byte{stream.Bytes()})
+				var got []string
+				for _, d := range res.Dispatches {
+					got = append(got, fmt.Sprintf("%s:%d", d.URI, len(d.Body)))
+				}
+				var want []string
+				if s1 <= R {
+					want = append(want, fmt.Sprintf("/first:%d", s1))
+					if s2 <= L {
+						want = append(want, fmt.Sprintf("/second:%d", s2), "/sentinel:0")
+					}
+				}
+				impl := strings.Join(got, ",")
+				return &Case{Impl: impl, Nontrivial: true, Tags: []string{"srvhr"},
+					Judge: func([]string) Verdict {
+						desc := fmt.Sprintf("MaxRequestBodySize=%d, HeaderReceived gives the first request the limit %d; bodies %d then %d: dispatched [%s], expected [%s], closed=%v", L, R, s1, s2, impl, strings.Join(want, ","), res.Trace.Closed)
+						if impl != strings.Join(want, ",") {
+							key := "per-request-limit-wrong"
+							if len(got) > len(want) {
+								key = "oversized-body-dispatched"
+							}
+							return Verdict{VSpec, key, desc}
 						}
 						return Ok()
 					}}
@@ -279,6 +312,11 @@ func init() {
 				default:
 					emit("mp", N(L+300), N(near(L)))
 				}
+			}
+			for i := 0; i < n/10; i++ {
+				L := []int{10, 100, 1000, 4096}[r.Intn(4)]
+				R := []int{L / 2, 2 * L, 10 * L, L + 1}[r.Intn(4)]
+				emit("srvhr", N(L), N(R), N([]int{0, L / 2, L, L + 1, R, R + 1}[r.Intn(6)]), N([]int{0, L - 1, L, L + 1, R, 2 * L}[r.Intn(6)]))
 			}
 			for i := 0; i < n/10; i++ {
 				buf := []int{512, 1024, 2048, 4096}[r.Intn(4)]
